@@ -48,7 +48,7 @@ Definition stream_next (E : env) (itemp : env -> st -> res (value * st)) (ss : s
     | r => (Some (res_item r), set_failed E ss)
     end.
 
-Definition value_item (E : env) (s : st) : res (value * st) := parse_value (S (S (length (rest s)))) E s.
+Definition value_item (E : env) (s : st) : res (value * st) := parse_value (value_fuel (rest s)) E s.
 Definition ignored_item (E : env) (s : st) : res (value * st) :=
   let* s1 := ignore_value E s in Ok (VNull, s1).
 
